@@ -973,7 +973,14 @@ def main():
         "modified Redfield cannot be constructed with the pinned SciPy (scipy.integrate.simps); the non-equilibrium Foerster tensor "
         "and field-driven propagation (not implemented upstream: raises) are not exercised",
     ]
+    chk.assumptions.append(
+        "static tie: a fail-closed write-set / last-write / exposed-read analysis of the current source of the API methods "
+        "(harness/translate_c15.py) is compared inside Coq with the written and changed fields of Model.C15's programs for every shape "
+        "of call; library functions, constructors (tensor kernels), basis and unit contexts and methods of objects created inside a "
+        "call are whitelisted with the reasons printed in the generated file; the shape-deciding branch conditions are given per shape")
     chk.prove()
+    import translate
+    translate.static_tie(cm, chk, PID, cm.REPO)      # second, static tie: write sets of the current source against the model's
     if args.replay:
         rep = json.load(open(args.replay))
         inp = rep.get("input")
